@@ -62,7 +62,7 @@ type propSpec struct {
 
 var specs = map[string]propSpec{
 	"C09": {Race: true},
-	"C05": {Binaries: true},
+	"C05": {Binaries: true, Shards: 11},
 	"C10": {Binaries: true},
 	"C18": {Binaries: true},
 }
